@@ -54,3 +54,117 @@ Qed.
 (* the encodings have the sizes the decoder insists on, and start with the version byte *)
 Lemma encode_att_shape a : List.length (encode_att a) = 17%nat /\ hd 0%N (encode_att a) = 1%N.
 Proof. unfold encode_att. cbn [List.length hd]. rewrite app_length, !le_bytes_length. auto. Qed.
+
+(* well-formed byte strings: every element below 256 *)
+Definition bytes_ok (b : bytes) : Prop := Forall (fun x => (x < 256)%N) b.
+
+Lemma le_val_range b : bytes_ok b -> 0 <= le_val b < 256 ^ Z.of_nat (List.length b).
+Proof.
+  induction 1 as [|x r Hx _ IH]; [cbn; lia|].
+  cbn [le_val List.length]. rewrite Nat2Z.inj_succ, Z.pow_succ_r by lia. lia.
+Qed.
+
+Lemma le_bytes_le_val b : bytes_ok b -> le_bytes (List.length b) (le_val b) = b.
+Proof.
+  induction 1 as [|x r Hx Hr IH]; [reflexivity|].
+  cbn [le_val List.length le_bytes].
+  assert (Hm : (Z.of_N x + 256 * le_val r) mod 256 = Z.of_N x).
+  { replace (Z.of_N x + 256 * le_val r) with (Z.of_N x + le_val r * 256) by lia. rewrite Z.mod_add by lia. apply Z.mod_small. lia. }
+  assert (Hd : (Z.of_N x + 256 * le_val r) / 256 = le_val r).
+  { replace (Z.of_N x + 256 * le_val r) with (Z.of_N x + le_val r * 256) by lia. rewrite Z.div_add by lia. rewrite (Z.div_small (Z.of_N x)) by lia. lia. }
+  rewrite Hm, Hd, N2Z.id, IH. reflexivity.
+Qed.
+
+Lemma uint64_roundtrip z : 0 <= z < two64 -> to_uint64 (to_int64 z) = z.
+Proof.
+  unfold to_int64, to_uint64, two63, two64. intros H.
+  destruct (z <? 9223372036854775808) eqn:E; [apply Z.ltb_lt in E|apply Z.ltb_ge in E].
+  - destruct (z <? 0) eqn:E2; [apply Z.ltb_lt in E2; lia|reflexivity].
+  - destruct (z - 18446744073709551616 <? 0) eqn:E2; [lia|apply Z.ltb_ge in E2; lia].
+Qed.
+
+Lemma to_int64_i64 z : 0 <= z < two64 -> i64 (to_int64 z).
+Proof. unfold i64, to_int64, two63, two64. intros H. destruct (z <? 9223372036854775808) eqn:E; [apply Z.ltb_lt in E|apply Z.ltb_ge in E]; lia. Qed.
+
+Lemma firstn_skipn_len {A} (l : list A) n m : List.length l = (n + m)%nat ->
+  List.length (firstn n l) = n /\ List.length (skipn n l) = m.
+Proof. intros H. rewrite firstn_length, skipn_length. lia. Qed.
+
+Lemma bytes_ok_app a b : bytes_ok (a ++ b) <-> bytes_ok a /\ bytes_ok b.
+Proof. unfold bytes_ok. apply Forall_app. Qed.
+
+(* the current format loses nothing: a record in the current format that decodes re-encodes to itself *)
+Theorem att_codec_inverse gob b a : bytes_ok b -> hd 0%N b = 1%N -> decode_att gob b = Some a -> encode_att a = b.
+Proof.
+  intros Hb Hh Hd. destruct b as [|x r]; [discriminate|]. cbn [hd] in Hh. subst x.
+  unfold decode_att in Hd. destruct (List.length r =? 16)%nat eqn:EL; [|discriminate]. apply Nat.eqb_eq in EL.
+  inversion Hb as [|? ? _ Hr]; subst.
+  destruct (firstn_skipn_len r 8 8 EL) as [L1 L2].
+  pose proof (firstn_skipn 8 r) as Hfs.
+  set (f := firstn 8 r) in *. set (t := skipn 8 r) in *. clearbody f t. subst r.
+  injection Hd as <-. unfold encode_att. cbn [a_src a_tgt]. f_equal.
+  apply bytes_ok_app in Hr. destruct Hr as [H1 H2].
+  pose proof (le_val_range _ H1) as R1. pose proof (le_val_range _ H2) as R2.
+  rewrite L1 in R1. rewrite L2 in R2. change (256 ^ Z.of_nat 8) with two64 in R1, R2.
+  rewrite (uint64_roundtrip _ R1), (uint64_roundtrip _ R2).
+  pose proof (le_bytes_le_val f H1) as B1. pose proof (le_bytes_le_val t H2) as B2.
+  rewrite L1 in B1. rewrite L2 in B2. rewrite B1, B2. reflexivity.
+Qed.
+
+Theorem prop_codec_inverse gob b s : bytes_ok b -> hd 0%N b = 1%N -> decode_prop gob b = Some s -> encode_prop s = b.
+Proof.
+  intros Hb Hh Hd. destruct b as [|x r]; [discriminate|]. cbn [hd] in Hh. subst x.
+  unfold decode_prop in Hd. destruct (List.length r =? 8)%nat eqn:EL; [|discriminate]. apply Nat.eqb_eq in EL.
+  injection Hd as <-. unfold encode_prop. f_equal.
+  inversion Hb as [|? ? _ Hr]; subst.
+  pose proof (le_val_range _ Hr) as R. rewrite EL in R. change (256 ^ Z.of_nat 8) with two64 in R.
+  rewrite uint64_roundtrip by assumption. rewrite <- EL. now apply le_bytes_le_val.
+Qed.
+
+(* whatever bytes are on disk in the current format, the decoded fields are int64 values *)
+Theorem att_decode_range gob b a : bytes_ok b -> hd 0%N b = 1%N -> decode_att gob b = Some a -> i64 (a_src a) /\ i64 (a_tgt a).
+Proof.
+  intros Hb Hh Hd. destruct b as [|x r]; [discriminate|]. cbn [hd] in Hh. subst x.
+  unfold decode_att in Hd. destruct (List.length r =? 16)%nat eqn:EL; [|discriminate]. apply Nat.eqb_eq in EL.
+  inversion Hb as [|? ? _ Hr]; subst.
+  destruct (firstn_skipn_len r 8 8 EL) as [L1 L2].
+  pose proof (firstn_skipn 8 r) as Hfs.
+  set (f := firstn 8 r) in *. set (t := skipn 8 r) in *. clearbody f t. subst r.
+  injection Hd as <-. cbn [a_src a_tgt].
+  apply bytes_ok_app in Hr. destruct Hr as [H1 H2].
+  pose proof (le_val_range _ H1) as R1. pose proof (le_val_range _ H2) as R2.
+  rewrite L1 in R1. rewrite L2 in R2. change (256 ^ Z.of_nat 8) with two64 in R1, R2.
+  split; now apply to_int64_i64.
+Qed.
+
+(* different states never share a record *)
+Theorem att_encode_injective a1 a2 : i64 (a_src a1) -> i64 (a_tgt a1) -> i64 (a_src a2) -> i64 (a_tgt a2) ->
+  encode_att a1 = encode_att a2 -> a1 = a2.
+Proof.
+  intros H1 H2 H3 H4 E. pose proof (att_codec_roundtrip (fun _ => None) a1 H1 H2) as R1.
+  pose proof (att_codec_roundtrip (fun _ => None) a2 H3 H4) as R2. rewrite E in R1. congruence.
+Qed.
+Theorem prop_encode_injective s1 s2 : i64 s1 -> i64 s2 -> encode_prop s1 = encode_prop s2 -> s1 = s2.
+Proof.
+  intros H1 H2 E. pose proof (prop_codec_roundtrip (fun _ => None) s1 H1) as R1.
+  pose proof (prop_codec_roundtrip (fun _ => None) s2 H2) as R2. rewrite E in R1. congruence.
+Qed.
+
+Lemma C11_codec_inverse_main :
+  (forall gob b a, bytes_ok b -> hd 0%N b = 1%N -> decode_att gob b = Some a ->
+     encode_att a = b /\ i64 (a_src a) /\ i64 (a_tgt a)) /\
+  (forall gob b s, bytes_ok b -> hd 0%N b = 1%N -> decode_prop gob b = Some s -> encode_prop s = b) /\
+  (forall a1 a2, i64 (a_src a1) -> i64 (a_tgt a1) -> i64 (a_src a2) -> i64 (a_tgt a2) ->
+     encode_att a1 = encode_att a2 -> a1 = a2) /\
+  (forall s1 s2, i64 s1 -> i64 s2 -> encode_prop s1 = encode_prop s2 -> s1 = s2).
+Proof.
+  split; [|split; [|split]].
+  - intros gob b a Hb Hh Hd. split; [eapply att_codec_inverse; eassumption|eapply att_decode_range; eassumption].
+  - intros gob b s. apply prop_codec_inverse.
+  - exact att_encode_injective.
+  - exact prop_encode_injective.
+Qed.
+
+Lemma C11_codec_inverse_example_proof :
+  bytes_ok (encode_att {| a_src := -1; a_tgt := 7 |}) /\ hd 0%N (encode_att {| a_src := -1; a_tgt := 7 |}) = 1%N.
+Proof. split; [|reflexivity]. vm_compute. repeat constructor. Qed.
